@@ -386,7 +386,13 @@ func (fr *Frame) encodeStore(x *ssa.Store) {
 			m := fr.getMem(elemMem(a.E), elemMemSort(a.E))
 			fr.setMem(elemMem(a.E), elemMemSort(a.E), store(m, a.arr, store(sel(m, a.arr), a.idx, fr.coerce(v, a.E))))
 			// make the read-back term available to E-matching (witness for existential facts about the written cell)
-			vc.seed(sel(sel(fr.getMem(elemMem(a.E), elemMemSort(a.E)), a.arr), a.idx), a.E.Sort())
+			cur := fr.getMem(elemMem(a.E), elemMemSort(a.E))
+			vc.seed(sel(sel(cur, a.arr), a.idx), a.E.Sort())
+			// redundant with the array theory: the untouched cells, triggered from both sides, so that a fact about a
+			// cell of the old array yields the corresponding term of the new one (and back)
+			k := fmt.Sprintf("k$%d", vc.nextBound())
+			vc.assume(fmt.Sprintf("(forall ((%s Int)) (! (=> (not (= %s %s)) (= %s %s)) :pattern (%s) :pattern (%s)))",
+				k, k, a.idx, sel(sel(cur, a.arr), k), sel(sel(m, a.arr), k), sel(sel(cur, a.arr), k), sel(sel(m, a.arr), k)))
 		case aCell:
 			srt := arraySort("Int", a.E.Sort())
 			m := fr.getMem(cellMem(a.E), srt)
